@@ -1,4 +1,5 @@
 import Proofs.DConnect
+import Proofs.Tie.Decode
 /-!
 # C03 — every valid MQTT v5.0 frame is accepted and decoded to the values it carries
 
